@@ -78,12 +78,22 @@ class RandomTree:
         rows.sort()
         return rows
 
-    def valid_tx(self, rows, txid, used):
+    def valid_tx(self, rows, txid, used, sweep=False):
         rng = self.rng
         avail = [r for r in rows if r[0] not in used]
         if not avail:
             return None
-        k = rng.choice([1, 1, 1, 2, 2, 3])
+        k = rng.choice([1, 1, 1, 2, 2, 3]) if not sweep else rng.choice([2, 2, 3])
+        if k > 1 and (sweep or rng.random() < 0.5):
+            # several outputs of one and the same key swept by one transaction (the usual shape of a miner's spend)
+            by_key = {}
+            for r in avail:
+                by_key.setdefault(r[2], []).append(r)
+            multi = [v for v in by_key.values() if len(v) >= 2]
+            if multi:
+                avail = rng.choice(multi)
+            elif sweep:
+                return None
         pick = rng.sample(avail, min(k, len(avail)))
         tot = sum(v for _, v, _ in pick)
         fee = rng.choice([0, 0, 1]) if tot >= 2 else 0
@@ -107,9 +117,19 @@ class RandomTree:
     def mutate_tx(self, t, m, parent, blkid):
         rng = self.rng
         t = json.loads(json.dumps({k: v for k, v in t.items() if k != "_pick"}))
-        first = t["ins"][0]
+        j = 0
+        if m == "sig_later":
+            # a later input spending another output of a key whose earlier input is properly signed carries a signature that does not verify
+            cand = [n for n in range(1, len(t["ins"])) if any(t["ins"][i]["signer"] == t["ins"][n]["signer"] for i in range(n))]
+            if not cand:
+                return None
+            j = rng.choice(cand)
+            m = rng.choice(["sig_garbage", "sig_outs", "wrongkey"])
+        elif m in ("wrongkey", "sig_outs", "sig_refs", "sig_garbage", "blank", "cbdata") and len(t["ins"]) > 1 and rng.random() < 0.6:
+            j = rng.randrange(1, len(t["ins"]))      # the alteration sits on a later input (the earlier ones are properly signed)
+        first = t["ins"][j]
         owner = first["signer"]
-        t["_owner"] = {0: owner}
+        t["_owner"] = {j: owner}
         t["mut"] = m
         if m == "ghost":
             first.update(ref={"tx": 9000 + rng.randint(0, 99), "idx": 0}, signer=-1)
